@@ -147,7 +147,9 @@ func (c *c32Client) Context() context.Context { return context.Background() }
 
 type c32AddrConn struct{ net.Conn }
 
-func (c32AddrConn) RemoteAddr() net.Addr { return &net.TCPAddr{IP: net.IPv4(127, 0, 0, 1), Port: 40002} }
+func (c32AddrConn) RemoteAddr() net.Addr {
+	return &net.TCPAddr{IP: net.IPv4(127, 0, 0, 1), Port: 40002}
+}
 
 type c32Cached struct {
 	ok     bool
